@@ -89,6 +89,47 @@ func zzC19Step(a, b *Router[*hnd], m *zzModel, op, i int) bool {
 			}
 		}
 		m.clean("/p/{k")
+	case 11: // a prefix that is itself a parameter route, with a route below it, is cleaned through the same Prefix object
+		if m.find("/r2/{id}") >= 0 || m.find("/r2/{id}/s") >= 0 {
+			return false
+		}
+		pp := a.Prefix("/r2/{id}")
+		pp.Get("", h)
+		pp.Get("/s", &hnd{id: 30 + i})
+		pp.Clean()
+		b.Handle("/r2/{id}", h, nil, "GET").Handle("/r2/{id}/s", &hnd{id: 30 + i}, nil, "GET")
+		b.Remove("/r2/{id}")
+		b.Remove("/r2/{id}/s")
+	case 12: // a Resource object that outlives its route: its strict URL follows the table, not its own history
+		if m.find("/p/x") >= 0 {
+			return false
+		}
+		res := a.Prefix("/p").Resource("/x")
+		res.Get(h)
+		b.Handle("/p/x", h, nil, "GET")
+		u1, e1 := res.URL(true, nil)
+		w1, f1 := b.URL(true, "/p/x", nil)
+		zzv.Assert(u1 == w1 && (e1 == nil) == (f1 == nil), "Resource.URL-differs-from-Router.URL")
+		a.Prefix("/p/x").Clean()
+		b.Remove("/p/x")
+		u2, e2 := res.URL(true, nil)
+		w2, f2 := b.URL(true, "/p/x", nil)
+		zzv.Assert(u2 == w2 && (e2 == nil) == (f2 == nil), "Resource.URL-after-the-route-was-removed-through-another-handle-differs-from-Router.URL")
+	case 13: // a Prefix object created before a Use: routes registered through it afterwards get the new middleware too
+		if m.handlerID("/q2/after", "GET") != 0 {
+			return false
+		}
+		pq := a.Prefix("/q2", zzMW("P5"))
+		a.Use(zzMW("U" + string(rune('0'+i))))
+		b.Use(zzMW("U" + string(rune('0'+i))))
+		pq.Get("/after", h, zzMW("R5"))
+		b.Handle("/q2/after", h, zzMWs("R5", "P5"), "GET")
+		m.add("/q2/after", h.id, "GET")
+		for _, x := range []string{"GET", "OPTIONS", "PUT"} {
+			oa, _ := zzServe(a, zzReq(x, "/q2/after"))
+			ob, _ := zzServe(b, zzReq(x, "/q2/after"))
+			zzv.Assert(oa.id == ob.id && zzSameChain(oa.chain, ob.chain), "middleware-order-differs-from-the-desugared-table")
+		}
 	case 9:
 		if m.handlerID("/p/q/v", "PUT") != 0 {
 			return false
@@ -103,7 +144,7 @@ func zzC19Step(a, b *Router[*hnd], m *zzModel, op, i int) bool {
 func zzRoutesString(r *Router[*hnd]) string {
 	rs := r.Routes()
 	s := ""
-	for _, p := range []string{"*", "/p/x", "/y/{id}", "/p/{k}/z", "/p/q/w", "/r/{id}", "/p/q/v", "/p/1", "/p/2", "/p/3", "/p/4", "/p/5", "/p"} {
+	for _, p := range []string{"*", "/p/x", "/y/{id}", "/p/{k}/z", "/p/q/w", "/r/{id}", "/p/q/v", "/p/1", "/p/2", "/p/3", "/p/4", "/p/5", "/p", "/r2/{id}", "/r2/{id}/s", "/q2/after"} {
 		if ms, ok := rs[p]; ok {
 			s += p + "=" + zzJoin(ms) + ";"
 		}
@@ -128,7 +169,7 @@ func ZZC19(n int) {
 		n -= 100
 	}
 	for i := 0; i < n/10; i++ {
-		if !zzC19Step(a, b, m, zzv.Choice("op", 11), i) {
+		if !zzC19Step(a, b, m, zzv.Choice("op", 14), i) {
 			zzv.Assume(false)
 		}
 	}
